@@ -214,7 +214,7 @@ type mgrScn struct {
 	lock       int // 0 held, 1 not held, 2 disconnected
 	dcsFault   int // 0 none, 1 set maintenance fails, 2 set switch fails, 3 create switch fails(lost)
 	masterKey  int // 0 h1, 1 ghost (unregistered)
-	swFail     int // 0 none, 1 target replica refuses read-only (switch fails), 2 operator aborts during the procedure, 3 abort + failing attempt, 4 old master refuses read-only (rejected inside)
+	swFail     int // 0 none, 1 target replica refuses read-only (switch fails), 2 operator aborts during the procedure, 3 abort + failing attempt, 4 old master refuses read-only (rejected inside), 5 nobody can be made writable
 }
 
 func mgrCfgJSON(c *config.Config) map[string]any {
@@ -376,6 +376,9 @@ func mgrRun(t *testing.T, out *verifh.Out, s mgrScn, dir string, kind string) {
 	case 4:
 		// the old master cannot be made read-only: a planned switchover is rejected inside the procedure
 		wd.Nodes[master].StuckRO = -1
+	case 5:
+		// the promoted node cannot be opened for writes, however often it is tried: the attempt fails at the very end
+		wd.AddFault("", "set_writable", 0, "err:1205")
 	}
 	// ticks
 	var badSince time.Time
@@ -644,7 +647,7 @@ func mgrGen(r *rand.Rand, focus string) mgrScn {
 		s.swAge = r.Intn(4)
 		s.runCount = r.Intn(3)
 		s.dcsFault = []int{0, 0, 0, 2}[r.Intn(4)]
-		s.swFail = []int{0, 0, 1, 2, 3, 4}[r.Intn(6)]
+		s.swFail = []int{0, 0, 1, 2, 3, 4, 5}[r.Intn(7)]
 		for i := range s.masterHealth {
 			if r.Intn(3) != 0 {
 				s.masterHealth[i], s.masterDown[i] = 0, false
